@@ -118,6 +118,9 @@ pub enum Op {
     NNotify { n: u8 },
     // ---- mpsc ----
     Send { c: u8, v: u64 },
+    /// like `Send`, but the message's destructor sends `v + 1` on the same channel if the message is
+    /// dropped without having been received (a job reporting its cancellation to its own queue)
+    SendBomb { c: u8, v: u64 },
     /// result = value or R_ERR
     Recv { c: u8 },
     /// result = value, R_EMPTY or R_ERR
@@ -329,6 +332,7 @@ impl fmt::Display for Op {
             NWait { n } => write!(f, "nwait(n{})", n),
             NNotify { n } => write!(f, "nnotify(n{})", n),
             Send { c, v } => write!(f, "send(ch{},{})", c, v),
+            SendBomb { c, v } => write!(f, "send_with_drop_report(ch{},{})", c, v),
             Recv { c } => write!(f, "recv(ch{})", c),
             TryRecv { c } => write!(f, "tryrecv(ch{})", c),
             DropRx { c } => write!(f, "droprx(ch{})", c),
@@ -429,7 +433,7 @@ impl Program {
                 RLock { l } | TryRLock { l } | RUnlock { l } => (2, *l, true),
                 WLock { l } | TryWLock { l } | WUnlock { l } => (2, *l, false),
                 NWait { n } | NWaitUntil { n, .. } | NNotify { n } => (4, *n, false),
-                Send { c, .. } | Recv { c } | TryRecv { c } | DropRx { c } | DropTx { c } => {
+                Send { c, .. } | SendBomb { c, .. } | Recv { c } | TryRecv { c } | DropRx { c } | DropTx { c } => {
                     (5, *c, false)
                 }
                 CRead { c } => (6, *c, true),
